@@ -46,7 +46,7 @@ use serde::{Deserialize, Serialize};
 
 use crate::{
     error::{EpbdError, Result},
-    types::{BuildingNeeds, Carrier, CType, EProd, Energy, HasValues, Meta, MetaVec, ProdSource, Service},
+    types::{BuildingNeeds, Carrier, CType, EProd, Energy, HasValues, Meta, MetaVec, Needs, ProdSource, Service},
     vecops::{veclistsum, vecvecdif, vecvecsum},
 };
 
@@ -90,7 +90,22 @@ impl fmt::Display for Components {
             .map(|v| format!("{}", v))
             .collect::<Vec<_>>()
             .join("\n");
-        write!(f, "{}\n{}", meta_lines, data_lines)
+        write!(f, "{}\n{}", meta_lines, data_lines)?;
+        // Demandas del edificio
+        for (service, values) in [
+            (Service::ACS, &self.needs.ACS),
+            (Service::CAL, &self.needs.CAL),
+            (Service::REF, &self.needs.REF),
+        ] {
+            if let Some(values) = values {
+                let need = Needs {
+                    service,
+                    values: values.clone(),
+                };
+                write!(f, "\n{}", need)?;
+            }
+        }
+        Ok(())
     }
 }
 
